@@ -8,8 +8,10 @@
       [Properties/C11.v] WITHOUT the hypothesis [last_len s = None], for the
       function the driver actually calls ([Model/Driver.v]: [OCopy]); the
       conclusion additionally says that the threshold is the same before and
-      after.  Only statements closed by [exact]; proofs live in
-      [Proofs/PubCorrect.v]. *)
+      after.  As in [Properties/C11.v] the TARGET manager [s] has no node
+      limit ([max_nodes s = None], the default; with a limit the call may
+      also raise [RuntimeError] at a full table).  Only statements closed by
+      [exact]; proofs live in [Proofs/PubCorrect.v]. *)
 From DD Require Import PubCorrect.
 Local Open Scope string_scope.
 
@@ -17,7 +19,7 @@ Theorem C11_pub_definition src u : copy_bdd_pub src u = guarded (copy_bdd src u)
 Proof. exact eq_refl. Qed.
 
 Theorem C11_copy_pub_correct_support src s u r s' :
-  Inv src → Inv s → valid src u →
+  Inv src → Inv s → max_nodes s = None → valid src u →
   (∀ v l, vars src !! v = Some l → occurs src u l → is_Some (vars s !! v)) →
   copy_bdd_pub src u s = (r, s') →
   ∃ x, r = Ok x ∧ Inv s' ∧ extends s s' ∧ last_len s' = last_len s ∧ valid s' x ∧
@@ -25,7 +27,7 @@ Theorem C11_copy_pub_correct_support src s u r s' :
 Proof. exact (copy_bdd_pub_spec_occ s src u r s'). Qed.
 
 Theorem C11_copy_pub_correct src s u r s' :
-  Inv src → Inv s → valid src u →
+  Inv src → Inv s → max_nodes s = None → valid src u →
   (∀ v l, vars src !! v = Some l → is_Some (vars s !! v)) →
   copy_bdd_pub src u s = (r, s') →
   ∃ x, r = Ok x ∧ Inv s' ∧ extends s s' ∧ last_len s' = last_len s ∧ valid s' x ∧
@@ -54,7 +56,7 @@ Example C11_pub_nonvacuous :
   let src := world_get w 0 in
   let s := world_get w 1 in
   let c := copy_bdd_pub src (-7) s in
-  mem 7 src = true ∧ last_len s = Some 1 ∧ len s = 1 ∧ rctx s = false ∧
+  mem 7 src = true ∧ last_len s = Some 1 ∧ max_nodes s = None ∧ len s = 1 ∧ rctx s = false ∧
   fst (copy_bdd src (-7) s) = Err EKey ∧
   vars s !! 0 = Some 2 ∧ vars (snd (copy_bdd src (-7) s)) !! 0 = Some 1 ∧
   len (snd (copy_bdd src (-7) s)) = 1 ∧
